@@ -10,6 +10,7 @@ import (
 	"os"
 	"path/filepath"
 	"runtime/debug"
+	"runtime/pprof"
 	"sort"
 	"strconv"
 	"strings"
@@ -33,6 +34,13 @@ func main() {
 	ssaDump := flag.String("ssa", "", "debug: print the SSA of the named function")
 	effDump := flag.String("effects", "", "debug: print the effect summary of the named function")
 	flag.Parse()
+	if pf := os.Getenv("PSACHECK_PROF"); pf != "" {
+		f, err := os.Create(pf)
+		if err == nil {
+			pprof.StartCPUProfile(f)
+			defer pprof.StopCPUProfile()
+		}
+	}
 
 	if *list {
 		var ids []string
@@ -117,6 +125,7 @@ func main() {
 		os.Exit(2)
 	}
 	code := run(*prop, f, *repo, *tier, seed, *out, *verif, start)
+	pprof.StopCPUProfile()
 	os.Exit(code)
 }
 
